@@ -2208,3 +2208,10 @@ m("C03", "unterminated-end-tag-loses-blanks", "parser.py",
         d['suffix'] = token
 
 ''', "")
+
+m("C03", "unquoted-value-stops-at-slash", "parser.py",
+  """    r'(?P<alt_value>(?:[^\\s>/]|/(?!>))+))|'""",
+  """    r'(?P<alt_value>[^\\s\\'">/]+))|'""")
+m("C03", "unquoted-value-stops-at-quote", "parser.py",
+  """    r'(?P<alt_value>(?:[^\\s>/]|/(?!>))+))|'""",
+  """    r'(?P<alt_value>(?:[^\\s>/\\'"]|/(?!>))+))|'""")
